@@ -213,6 +213,133 @@ class EngineObjects(Part):
         return "K14" if mismatch.bucket == "engineobjects:K14" else None
 
 
+class Isolation(Part):
+    """Separately compiled instances of the same source and configuration
+    render identically - whatever OTHER templates were compiled and rendered
+    in the process in between (with other options, extra builtins, global
+    definitions, code blocks, macros named like this template's variables,
+    failing templates, templates that do not compile)."""
+    name = "isolation"
+    examples = {"quick": 250, "thorough": 8000}
+
+    KINDS = ["extra_builtins", "extra_builtins_callable", "global_define",
+             "code_block", "code_def", "macro_named", "repeat_named",
+             "boolean_attribute", "render_fails", "compile_fails",
+             "text_template", "options", "import_expr", "subclass_builtins"]
+
+    def strategy(self, tier):
+        names = ["s0", "s1", "s2", "q0", "q1", "d0", "id", "it0", "o0",
+                 "rec", "boom", "i0", "i1", "j"]
+        return st.fixed_dictionaries({
+            "base": tstrat.templates(depth=2, tales=True, max_elems=6,
+                                     repeat_probes=True, dict_attrs=True),
+            "between": st.lists(st.tuples(st.sampled_from(self.KINDS),
+                                          st.sampled_from(names)),
+                                min_size=1, max_size=4),
+        })
+
+    def source(self, case):
+        return tmodel.serialize(case["base"]["nodes"]).text()
+
+    def nontrivial(self, case):
+        return True
+
+    def labels(self, case):
+        for k, _ in case["between"]:
+            yield k
+
+    def sample(self, case):
+        return {"source": self.source(case), "between": case["between"]}
+
+    @staticmethod
+    def interfere(kind, name):
+        """Compile (and render) some other template; its outcome does not
+        matter."""
+        from chameleon import PageTemplate, PageTextTemplate
+        n = name
+        if kind == "extra_builtins":
+            t = lambda: PageTemplate("<p>${%s}</p>" % n,
+                                     extra_builtins={n: "EB"})
+        elif kind == "extra_builtins_callable":
+            t = lambda: PageTemplate("<p>${%s('a', 1)}</p>" % n,
+                                     extra_builtins={n: lambda *a: "EBC"})
+        elif kind == "global_define":
+            t = lambda: PageTemplate(
+                "<p tal:define=\"global %s 'G'\">${%s}</p>" % (n, n))
+        elif kind == "code_block":
+            t = lambda: PageTemplate("<?python %s = 'CB' ?><p>${%s}</p>"
+                                     % (n, n))
+        elif kind == "code_def":
+            t = lambda: PageTemplate(
+                "<?python\ndef %s(*a):\n    return 'CD'\n?><p>${%s()}</p>"
+                % (n, n))
+        elif kind == "macro_named":
+            t = lambda: PageTemplate(
+                '<p metal:define-macro="%s">m</p>'
+                '<p metal:use-macro="macros[\'%s\']"/>' % (n, n))
+        elif kind == "repeat_named":
+            t = lambda: PageTemplate(
+                '<p tal:repeat="%s (1, 2)">${%s}${repeat.%s.index}</p>'
+                % (n, n, n))
+        elif kind == "boolean_attribute":
+            t = lambda: PageTemplate('<p %s="${1}" class="x">b</p>' % n,
+                                     boolean_attributes={n, "class"})
+        elif kind == "render_fails":
+            t = lambda: PageTemplate(
+                "<p tal:define=\"global %s 1\">${%s.nope}</p>" % (n, n))
+        elif kind == "compile_fails":
+            t = lambda: PageTemplate("<p tal:define=\"%s 1 +\">x</p>" % n)
+        elif kind == "text_template":
+            t = lambda: PageTextTemplate("${%s | 'T'} $%s" % (n, n))
+        elif kind == "options":
+            t = lambda: PageTemplate(
+                '<p class=" a " tal:attributes="id %s|None">o</p>' % n,
+                trim_attribute_space=True, literal_false=False,
+                enable_data_attributes=True, restricted_namespace=False,
+                implicit_i18n_translate=True,
+                implicit_i18n_attributes={"class"}, strict=False)
+        elif kind == "import_expr":
+            t = lambda: PageTemplate(
+                "<p tal:define=\"%s import: os.path\">${%s.sep}</p>" % (n, n))
+        else:
+            class Sub(PageTemplate):
+                extra_builtins = {n: "SB"}
+            t = lambda: Sub("<p>${%s}</p>" % n)
+        o = run(t)
+        if o.ok:
+            run(o.value.render)
+
+    def oracle(self, case):
+        from chameleon import PageTemplate
+        src = self.source(case)
+        b = case["base"]["bindings"]
+        o = run(PageTemplate, src)
+        if not o.ok:
+            return Mismatch("isolation:compile raises " + o.exc_name,
+                            {"source": src, "outcome": o.brief()})
+        first = o.value
+        want, wlog, _ = render_once(first, b)
+        for kind, name in case["between"]:
+            self.interfere(kind, name)
+        o = run(PageTemplate, src)
+        detail = {"source": src, "bindings": b, "between": case["between"],
+                  "before": want}
+        if not o.ok:
+            return Mismatch("isolation:second compilation raises " +
+                            o.exc_name, dict(detail, outcome=o.brief()))
+        got, glog, _ = render_once(o.value, b)
+        if got != want or glog != wlog:
+            return Mismatch("isolation:instance compiled after other "
+                            "templates renders differently",
+                            dict(detail, after=got))
+        again, alog, _ = render_once(first, b)
+        if again != want or alog != wlog:
+            return Mismatch("isolation:earlier instance renders differently "
+                            "after other templates were compiled",
+                            dict(detail, after=again))
+        return None
+
+
 # ---------------------------------------------------------------------------
 
 CHILD = r"""
@@ -299,7 +426,40 @@ class HashSeed(Stage):
                                  for nm in names)
             cases.append({"source": '<p i18n:translate="">Dear %s.</p>'
                           % inner, "bindings": {}, "i18n": True})
-        return cases
+        # attributes that exist only because i18n:attributes names them,
+        # next to static and dynamic ones: their order in the start tag
+        attrs = ["title", "alt", "value", "placeholder", "summary", "abbr",
+                 "label", "aria-label", "x", "longdesc"]
+        for _ in range(max(8, n // 16)):
+            named = rnd.sample(attrs, rnd.randint(2, 6))
+            static = rnd.sample(named, rnd.randint(0, 2))
+            dyn = [a for a in rnd.sample(named, rnd.randint(0, 2))
+                   if a not in static]
+            spec = "; ".join(a if rnd.random() < .6 else "%s id-%s" % (a, a)
+                             for a in named)
+            cases.append({"source": '<input%s%s i18n:attributes="%s" />' % (
+                "".join(' %s="S %s"' % (a, a) for a in static),
+                ' tal:attributes="%s"' % "; ".join(
+                    "%s 'D %s'" % (a, a) for a in dyn) if dyn else "",
+                spec), "bindings": {}, "i18n": True})
+        # the i18n grammar of C10 (domains, names, attributes, messages)
+        from checks import c10
+        i18n_cases = []
+
+        @settings(max_examples=max(20, n // 4), database=None, deadline=None,
+                  phases=[Phase.generate],
+                  suppress_health_check=list(HealthCheck))
+        @hypothesis.seed(seed + 7)
+        @given(c10.cases())
+        def go2(c):
+            b = {k: (["none"] if v is None else ["str", v])
+                 for k, v in c["bindings"].items()}
+            b["m0"] = ["msg", "m-zero"]
+            b["vn"] = ["none"]
+            i18n_cases.append({"source": c10.source(c["nodes"]),
+                               "bindings": b, "i18n": True})
+        go2()
+        return cases + i18n_cases
 
     def oracle(self, case):
         a = render_in_child([case], 1)[0]
@@ -609,7 +769,7 @@ CHECK = Check(
           "inside cook / cook_check / read / load / macros / include, sampled "
           "(quick) or all (thorough) double-preemption schedules and drawn "
           "3-thread schedules; every schedule is a distinct non-trivial case"),
-    parts=[Determinism(), EngineObjects()],
+    parts=[Determinism(), EngineObjects(), Isolation()],
     stages=[HashSeed(), FreeThreads(), Schedules()],
     assumptions=[
         "preemption inside C-level calls or between the bytecodes of one "
